@@ -506,7 +506,15 @@ def run(ctx):
     else:
         nvalid, per_prog = 36, 9
 
-    b = ctx.coq_build(["C11/Effects.v", "C11/EffectsSound.v", "C11/EffectsPure.v", "C11/EffectsReject.v", "C11/EffectsTerm.v", "C11/EffectsIter.v", "C11/PropsEffects.v"])
+    # O-tie of the venom range-loop guard: record the templates from the real code generator, then prove them correct
+    guard_err = None
+    try:
+        from vlib import c11_guard
+        from vlib.common import COQ
+        (COQ / "C11" / "GenRangeGuard.v").write_text(c11_guard.generate())
+    except Exception as e:  # noqa
+        guard_err = f"{type(e).__name__}: {e}"
+    b = ctx.coq_build(["C11/Effects.v", "C11/EffectsSound.v", "C11/EffectsPure.v", "C11/EffectsReject.v", "C11/EffectsTerm.v", "C11/EffectsIter.v", "C11/PropsEffects.v"] + ([] if guard_err else ["C11/GenRangeGuard.v", "C11/RangeGuard.v", "C11/PropsRange.v"]))
     model_ok = b["ok"] or not b.get("file", "").endswith("/Effects.v")
 
     ext_code = compile_full(G.EXT_SRC, front)
@@ -654,6 +662,8 @@ def run(ctx):
     ctx.samples.append({"rule": cases[1][0], "where": cases[1][1], "source_tail": G.v_prog(cases[1][2], tgt_lit)[0][-600:]})
     # known findings must not mask other reports: only NEW failing inputs replace the correspondence verdicts
     new_fail = sum(1 for v in ctx.violations if v["kind"] == "failing-input")
+    if guard_err and not new_fail:
+        ctx.violation("translator-rejected", "cannot record the venom range-loop guard from Stmt._lower_range_loop: " + guard_err, {"error": guard_err})
     if not new_fail:
         if not b["ok"]:
             ctx.violation("theorem-broken", f"{b.get('failed_lemma')} in {b['file']}",
